@@ -6,7 +6,7 @@ seeds=$1; shift
 ids="$*"; [ -z "$ids" ] && ids=$(ls seeded | grep -v -E "SUMMARY|SEEDS")
 : > seeded/SEEDS.txt.tmp
 for id in $ids; do
-  prop=$(python3 -c "import json;print(json.load(open('seeded/$id/meta.json'))['breaks_property'])")
+  prop=$(python3 -c "import json;m=json.load(open('seeded/$id/meta.json'));print(m.get('check_with',m['breaks_property']))")
   hit=0; tot=0; miss=""
   for sd in $seeds; do
     tot=$((tot+1))
